@@ -239,6 +239,12 @@ def run_real(case, date_patch=True):
             a = acts[k]
             if a[0] == "sr":
                 do_sr(a)
+            elif a[0] == "srt":
+                # the application catches whatever the server raises for this call and goes on (oracle-only cases)
+                try:
+                    do_sr(a)
+                except Exception:
+                    pass
             else:
                 if ctx["write"] is None:
                     break                       # write() is only available after start_response: yield it instead
@@ -260,6 +266,11 @@ def run_real(case, date_patch=True):
             for a in rest:
                 if a[0] == "sr":
                     do_sr(a)
+                elif a[0] == "srt":
+                    try:
+                        do_sr(a)
+                    except Exception:
+                        pass
                 else:
                     yield a[1].encode("latin-1")
             if end[0] == "raise":
